@@ -83,6 +83,8 @@ namespace igris
         {
             for (auto &obj : lst)
             {
+                if (m_size >= N)
+                    break;
                 new (&_data[m_size]) T(obj);
                 ++m_size;
             }
